@@ -353,6 +353,13 @@ def rule_c_d(repo, chk):
         q = Q.reachable_without(g, r, avoid_node=lambda n: n in bod)
         chk.ob('c', h.ref, 'the request body is taken from the parser before the request is fired', q is None and bool(bod), loc(h, r.ast), discr='body-attached')
     chk.ob('c', h.ref, 'request is fired from exactly one site', len(rf) == 1, loc(h, h.node), discr='request-once')
+    # the parser reports a transient error while a chunk's terminator has not arrived yet: only the header phase may reject on errno
+    errtests = [n for n in g.nodes if n.kind == 'test' and '.errno' in src(n.ast)]
+    inc_edge = pat.test_edge(lambda tt, pol: pol == 'F' and src(tt).endswith('.is_headers_complete()'))
+    for n in errtests:
+        q = pat.guarded_by(g, n, inc_edge)
+        chk.ob('c', h.ref, 'the parser\'s error state is consulted only while the headers are incomplete (in the body phase it is transient until the rest of a '
+                           'chunk arrives)', q is None, loc(h, n.ast), path=pat.path_lines(q) if q else None, discr='errno-only-in-header-phase')
     # d: wait exits keep the parser — no path drops the parser and then leaves without firing anything
     fires = [n for n in g.nodes if n.kind in ('stmt',) and pat.fire_calls(n.ast)]
     dels = [n for n in g.nodes if n.kind == 'stmt' and isinstance(n.ast, ast.Delete) and any(src(t) == f'self._buffers[{sock}]' for t in n.ast.targets)]
